@@ -30,7 +30,24 @@ RefOps(g) ==
     [] g = "p2gg" -> << Id, <<-1, 0, 0, -1, 0, 0>>, <<-1, 0, 0, 1, 1, 1>>, <<1, 0, 0, -1, 1, 1>> >>
 
 RefFamily(g) == IF g \in {"p1", "p2"} THEN "Monoclinic" ELSE "Orthorhombic"
-Order(g) == Len(RefOps(g))
+
+(* Groups a user of the library can build himself (WallpaperGroup / WyckoffSite values are plain *)
+(* data): the same operations listed in another order, centred cells (an operation that is a    *)
+(* pure translation besides the identity) and a four-fold axis (linear parts that are not        *)
+(* symmetric matrices).  Crystal.tla gives them the same meaning as the built-in ones.           *)
+UserGroups == {"p2r", "p2mgr", "c1m1", "c2mm", "p4"}
+UserOps(g) ==
+  CASE g = "p2r"   -> << <<-1, 0, 0, -1, 0, 0>>, Id >>
+    [] g = "p2mgr" -> << <<-1, 0, 0, 1, 1, 0>>, <<1, 0, 0, -1, 1, 0>>, <<-1, 0, 0, -1, 0, 0>>, Id >>
+    [] g = "c1m1"  -> << Id, <<-1, 0, 0, 1, 0, 0>>, <<1, 0, 0, 1, 1, 1>>, <<-1, 0, 0, 1, 1, 1>> >>
+    [] g = "c2mm"  -> << Id, <<-1, 0, 0, -1, 0, 0>>, <<-1, 0, 0, 1, 0, 0>>, <<1, 0, 0, -1, 0, 0>>,
+                         <<1, 0, 0, 1, 1, 1>>, <<-1, 0, 0, -1, 1, 1>>, <<-1, 0, 0, 1, 1, 1>>, <<1, 0, 0, -1, 1, 1>> >>
+    [] g = "p4"    -> << Id, <<-1, 0, 0, -1, 0, 0>>, <<0, -1, 1, 0, 0, 0>>, <<0, 1, -1, 0, 0, 0>> >>
+UserFamily(g) == CASE g = "p2r" -> "Monoclinic" [] g = "p4" -> "Tetragonal" [] OTHER -> "Orthorhombic"
+
+Ops(g) == IF g \in Groups THEN RefOps(g) ELSE UserOps(g)
+FamilyOf(g) == IF g \in Groups THEN RefFamily(g) ELSE UserFamily(g)
+Order(g) == Len(Ops(g))
 
 \* expected content: <<two-folds, mirrors, glides>>
 RefContent(g) ==
